@@ -26,7 +26,10 @@ VNormalize(x) ==
   LET v == ValOf(x.val)  m == x.mask % 64 IN
   IF x.rc # 0 THEN Fail("C08", "normalization failed without an allocation failure")
   ELSE LET o == ValOf(x.out)
-           E == IF SameParts(o, NormalizeX(v, m, TRUE)) THEN NormalizeX(v, m, TRUE) ELSE Normalize(v, m) IN   \* C08 alone allows either form of a fully cancelled relative path
+           Ideal == Normalize(v, m)
+           DotSlash == [Ideal EXCEPT !.segs = <<DOT, EMPTY>>]          \* "./" identifies what "." identifies
+           E == IF SameParts(o, NormalizeX(v, m, TRUE)) THEN NormalizeX(v, m, TRUE)                            \* C08 alone allows either form of a fully cancelled relative path
+                ELSE IF HasBit(m, M_PATH) /\ CancelsCompletely(v) /\ o = DotSlash THEN DotSlash ELSE Ideal IN
        FailX(~SameParts(o, E), "C08", "result differs from the syntax-based normal form for this mask", [segs |-> E.segs, abs |-> E.abs, text |-> Recompose(E)])
     \o FailX(SameParts(o, E) /\ o # E, "C11", "same text as the parsed form but a different structure (would compare unequal)", [segs |-> E.segs, abs |-> E.abs, text |-> Recompose(E)])
     \o FailIf(x.mask # 0 /\ x.out.own # 1, "C12", "not owner after normalization with a non-zero mask")
